@@ -15,8 +15,10 @@ from harness.c18 import pmerge, _cp
 PID = "C11"
 FILES = ["yamlpath/merger/merger.py", "yamlpath/merger/mergerconfig.py", "yamlpath/processor.py", "yamlpath/yamlpath.py"]
 FUNCTIONS = ["Merger.merge_with (args.mergeat set)", "Merger._get_merge_target_nodes", "Merger._insert_dict/_insert_list/_insert_scalar",
-             "MergerConfig.get_insertion_point/prepare", "Processor.get_nodes (optional match seeded with the right-hand document)"]
-STUBS = ["logger: real ConsolePrinter(quiet)"]
+             "MergerConfig.get_insertion_point/prepare", "Processor.get_nodes (optional match seeded with the right-hand document)",
+             "yaml_merge.main/merge_docs/merge_condense_all/merge_across/merge_matrix/write_output_document (write-out clause)"]
+STUBS = ["logger: real ConsolePrinter(quiet)", "write-out clause: loader stub, in-memory FS and argv namespace as in C17; yaml_merge.write_output_document is "
+         "replaced by a recorder (the writer itself is C17's subject)"]
 OUTSIDE = ["policies other than the defaults at the target (C05); 'no partial write-out' is a file-system clause (C17)",
            "when the target is missing and gets created, the right-hand leaves are enumerated over [0,1] (the creation code "
            "stringifies the whole right-hand document)"]
@@ -157,6 +159,61 @@ def mergeat_missing(where: int, kind: int, x: int, y: int, a: int, b: int, c: in
     return got == want
 
 
+def mergeat_writeout(mode: int, nl: int, nr: int, t: int, overwrite: bool, a: int) -> bool:
+    """yaml-merge main() with --mergeat over multi-document streams: if ANY document's merge is refused (unmatched,
+    uncreatable target, or impossible merge at the target) the run ends non-zero and nothing is written, also when a
+    later document merges fine."""
+    import contextlib
+    import io
+    import yamlpath.commands.yaml_merge as ym
+    from yamlpath.common import Parsers
+    from vf.stubs import FakeFS
+    from harness.c17 import _patched, ORIG
+    mode = realize(mode)
+    t = realize(t)
+    # left document i carries a record list; only documents with bit i of t set hold the record that --mergeat searches for
+    ldocs = [cmap(("items", cseq(cmap(("name", "two" if (t >> i) & 1 else "one"), ("v", a)))), ("n", i)) for i in range(nl)]
+    rdocs = [cmap(("extra", j)) for j in range(nr)]
+    target = "out.yaml"
+    fs = FakeFS({"l.yaml": b"L", "r.yaml": b"R", target: ORIG} if overwrite else {"l.yaml": b"L", "r.yaml": b"R"})
+    args = SimpleNamespace(quiet=True, verbose=False, debug=False, output=None if overwrite else target,
+                           overwrite=target if overwrite else None, backup=overwrite, yaml_files=["l.yaml", "r.yaml"],
+                           config=None, mergeat="/items[name=two]", nostdin=True, json_indent=2, document_format="auto",
+                           hashes=None, arrays=None, aoh=None, sets=None, anchors="stop",
+                           multi_doc_mode=["condense_all", "merge_across", "matrix_merge"][mode], preserve_lhs_comments=False)
+    docs = {"l.yaml": ldocs, "r.yaml": rdocs}
+    saved = (ym.processcli, Parsers.get_yaml_multidoc_data)
+    ym.processcli = lambda: args
+    Parsers.get_yaml_multidoc_data = staticmethod(
+        lambda parser, logger, source, **kw: iter([(d, True) for d in docs[source]]))
+    code = 0
+    written = []
+    try:
+        # the writer itself is C17's subject; here it only records that main() reached it
+        with _patched(ym, fs, {"access": lambda p_, m_: True,
+                               "write_output_document": lambda args_, log_, yaml_, docs_: written.append(len(docs_))}), \
+                contextlib.redirect_stdout(io.StringIO()), contextlib.redirect_stderr(io.StringIO()):
+            try:
+                ym.main()
+            except SystemExit as ex:
+                code = ex.code if ex.code is not None else 0
+    finally:
+        (ym.processcli, Parsers.get_yaml_multidoc_data) = saved
+    has = [bool((t >> i) & 1) for i in range(nl)]
+    if mode == 0:
+        # every other document (left ones too) is merged into the FIRST left document at the --mergeat path
+        refused = not has[0]
+    elif mode == 1:
+        refused = any(not has[i] for i in range(min(nl, nr)))
+    else:
+        refused = not all(has)
+    note(mode=args.multi_doc_mode, mergeat=args.mergeat, left_documents_holding_the_target=has, right_documents=nr,
+         overwrite=overwrite, exit_status=code, mutating_ops=fs.mutating_ops(), documents_handed_to_the_writer=written)
+    if refused:
+        return code != 0 and fs.mutating_ops() == [] and written == []
+    return code == 0 and len(written) == 1
+
+
 def shards(tier, seed):
     out = []
     for name in CASES:
@@ -179,4 +236,12 @@ def shards(tier, seed):
                              desc="mergeat %s (missing, created) with a right-hand %s" % (["/z", "/a/zz", "/new/deep", "/e/child", "/e/child/deeper"][where],
                                                                                          ["hash", "array"][kind]),
                              bounds={"x,y": "[0,1] enumerated", "a,b,c": "[-9,9]"}))
+    for mode in range(3):
+        out.append(shard(PID, "writeout/%s" % ["condense", "across", "matrix"][mode], "harness.c11",
+                         "mergeat_writeout(%d, nl, nr, t, overwrite, a)" % mode,
+                         [("nl", "int"), ("nr", "int"), ("t", "int"), ("overwrite", "bool"), ("a", "int")],
+                         ["1 <= nl <= 2 and 1 <= nr <= 2", "0 <= t < 4", "0 <= a <= 1"], family="writeout", budget=1800,
+                         desc="yaml-merge main(), --mergeat=/items[name=two], %s mode, 1..2 x 1..2 documents, the target present in a "
+                              "symbolic subset of the left documents: refused anywhere => non-zero exit and no write-out"
+                              % ["condense_all", "merge_across", "matrix_merge"][mode]))
     return out
